@@ -106,6 +106,18 @@ def gen(rng, V, depth, pools):
             for l in reversed(leaves[:-1]):
                 t = ("bin", sign if rng.random() < 0.7 else "*", l, t)
         return t
+    if rng.random() < 0.04 and getattr(V, "confusable", None):
+        # the same letters once as two blank-separated unit words and once glued into one word that means something else
+        # (2 m N / 4 mN, 3 ms * 2 m s), both orders: a memo of unit texts keyed without their blanks confuses them (seed C04-h)
+        a, b, ab = rng.choice(V.confusable)
+        l = []
+        for fs, txt in (([(a, 1), (b, 1)], "%s %s" % (a["word"], b["word"])), ([(ab, 1)], ab["word"])):
+            sv, dims = V.factors_si(fs)
+            xs, x = mag(rng)
+            l.append(("lit", "%s %s" % (xs, txt), x * sv, dims))
+        if rng.random() < 0.5:
+            l.reverse()
+        return ("bin", rng.choice("**/"), l[0], l[1])
     if rng.random() < 0.05:
         # two operands that share a unit NAME under different prefixes (500 g/lb * 2 lb/kg, 254 cm/in / 1 in/m); in half of the
         # cases each operand is a ratio whose dimensions cancel inside the operand (seed C04-d)
@@ -139,9 +151,20 @@ def gen(rng, V, depth, pools):
 def shard(p):
     acc = Acc()
     rng = rng_for(p["seed"], PID, p["shard"])
-    d = Driver(p["bin"])
+    # every fourth shard evaluates with a logger installed at trace level (RUST_LOG): enabling logging must not change any result.
+    # (The vocabulary - which words mean what, measured scales - comes from a plain driver: a fault that logging switches on must not
+    # also shift the yardstick.)
+    log_env = {"RUST_LOG": "anything=trace"} if p["shard"] % 4 == 3 else None
+    d = Driver(p["bin"], env=log_env)
     try:
-        V = G.Vocab(d)
+        if log_env:
+            acc.context = {"trace_logging": True}
+            acc.count("shards_with_trace_logging_enabled")
+            with Driver(p["bin"]) as d_plain:
+                V = G.Vocab(d_plain)
+        else:
+            V = G.Vocab(d)
+        V.confusable = G.confusables(V)
         mech = [e for e in V.entries if e["unit"] in ("Newton", "Joule", "Watt", "Pascal", "Gram", "Meter", "Second", "Acceleration", "Velocity", "Gforce", "Btu", "Electronvolt")]
         elec = [e for e in V.entries if e["unit"] in ("Volt", "Ohm", "Siemens", "Farad", "Henry", "Weber", "Tesla", "Coulomb", "Ampere", "Watt", "Second", "Meter", "Gram")]
         pools = [None, None, mech, elec]
@@ -268,6 +291,7 @@ def run(tier, seed):
 def replay(path):
     v = json.load(open(path))
     c = v["case"]
-    with Driver(build.build(c.get("build", "dbg"))["vdriver"]) as d:
+    from core.driver import replay_env
+    with Driver(build.build(c.get("build", "dbg"))["vdriver"], env=replay_env(c)) as d:
         print(json.dumps({"query": c["query"], "expected": c["expected"], "now": d.call({"op": "query", "q": c["query"], "full": True}).get("items")}, ensure_ascii=False))
     return 0
